@@ -152,6 +152,17 @@ CLAIMED["C16"] = {
     "ref": "DESIGN.md section 5 (C16)",
 }
 
+CLAIMED["C09"] = {
+    "text": "Proof: _pslinux.disk_io_counters with its read_procfs generator inlined - one column contract per "
+            "diskstats layout (14/18/20-field disk lines, 7-field partition lines, 15-field 2.4 lines), sectors x 512, "
+            "perdisk=False keeping whole disks only, as a loop invariant over any number of lines; _psposix.disk_usage "
+            "arithmetic; the front-end aggregation (field-wise sums, None/{} when empty) for 0..3 devices. The "
+            "/proc/net/dev parser and the diskstats path end to end are covered by bounded sweeps over generated files.",
+    "note": "split() uninterpreted and shared by grammar and code; aggregation proved per fixed device count; one "
+            "recorded known finding (C09-kernel-2.4, pinned by an existing test).",
+    "ref": "DESIGN.md section 5 (C09)",
+}
+
 NOT_YET = "check not built yet (work in progress, see DESIGN.md section 7)"
 NA = {}
 
